@@ -95,32 +95,54 @@ def oracle_run(args):
     AugmentedFSSH.surface_hopping = wrapped_sh
     try:
         cls = getattr(mudslide, spec["cls"])
+        extra = {"max_electronic_dt": spec["max_edt"]} if "max_edt" in spec else {}
         t = cls(model, x0, p0, rho0, state0=0, dt=spec["dt"], max_steps=spec["steps"], seed_sequence=spec["seed"],
-                electronic_integration=spec["integ"])
+                electronic_integration=spec["integ"], **extra)
         tr = t.simulate()
     finally:
         TrajectorySH.hop_to_it = orig
         AugmentedFSSH.surface_hopping = orig_sh
     problems = list(collapse_problems[:2])
     pure = spec["rho"] in ("pure", "basis")
-    # linear-rk4: positivity/purity hold only up to the accumulated RK4 truncation error (no exact statement exists):
-    # gross violations only; Hermiticity and trace are exact and judged strictly below
-    tol = 1e-9 if spec["integ"] == "exp" else 1e-3
     collapsed = {e["time"] for e in tr.events.get("collapse", [])} if hasattr(tr, "events") else set()
+    # Hermiticity and unit trace are exact for both integrators (Lean: conj_hermitian/conj_trace, rk4_hermitian/rk4_trace):
+    # judged strictly. Positivity / populations / purity: strictly too; for linear-rk4 a deviation is then examined below
+    defect, defect_at = 0.0, None
     for s in tr:
         rho = s["density_matrix"]
         herm = float(np.max(np.abs(rho - rho.conj().T)))
         if herm > 1e-9 or abs(np.trace(rho) - 1) > 1e-9:
             problems.append("t=%r: Hermiticity error %.3g, trace %r" % (s["time"], herm, np.trace(rho)))
             break
-        p = _valid_state(rho, pure0=(tol if (pure and not collapsed) else None), tol=tol)
-        if p:
-            problems.append("t=%r: %s" % (s["time"], "; ".join(p)))
-            break
+        ev = np.linalg.eigvalsh(0.5 * (rho + rho.conj().T))
+        d = max(0.0, -float(ev.min()), float(ev.max()) - 1.0)
+        if pure and not collapsed:
+            d = max(d, abs(float(np.real(np.trace(rho @ rho))) - 1.0))
+        if d > defect:
+            defect, defect_at = d, s["time"]
+    rk4_truncation = None
+    if defect > 1e-9:
+        msg = "t=%r: positivity/purity defect %.3g (negative eigenvalue, population outside [0,1] or tr rho^2 != 1)" % (defect_at, defect)
+        if spec["integ"] == "linear-rk4" and not problems and not spec.get("_refining"):
+            # is this the truncation error of the (non-unitary) RK4 scheme - Lean witness rk4_purity_witness - and nothing else?
+            # then it vanishes when the electronic sub-step is refined (4th order); any other cause does not
+            rk4_truncation = False
+            e0 = float(spec.get("max_edt", 0.1))
+            for k in (4.0, 16.0, 64.0):
+                sub = dict(spec, max_edt=e0 / k, _refining=True)
+                ok2, obs2, _r, _t = oracle_run(sub)
+                if "exception" in obs2:
+                    break
+                if ok2 or (not obs2.get("strict_problems") and obs2.get("defect", 1.0) <= max(1e-9, defect / 16.0)):
+                    rk4_truncation = True
+                    break
+        problems.append(msg)
     if records and max(records) != 0.0:
         problems.append("a hop attempt changed the density matrix by %.3g" % max(records))
+    strict = [p for p in problems if "positivity/purity defect" not in p]
     return not problems, {"snapshots": len(tr), "hop_attempts": len(records), "collapses": len(collapsed),
-                          "collapses_in_hop_steps": collapse_info["with_hop"], "problems": problems[:2]}, \
+                          "collapses_in_hop_steps": collapse_info["with_hop"], "defect": defect, "strict_problems": strict[:2],
+                          "only_rk4_truncation": bool(rk4_truncation) and not strict, "problems": problems[:2]}, \
         {"problems": []}, "; ".join(problems[:2]) or "ok"
 
 
@@ -152,7 +174,31 @@ def oracle_collapse(args):
         "after a collapse rho is not the pure active state / moments not zero / event not recorded"
 
 
-ORACLES = {"step": oracle_step, "run": oracle_run, "collapse": oracle_collapse}
+WITNESS = dict(N=2, n=1, mass=[1.0], dt=1.0, H0=[[0.0, 0.0], [0.0, 0.0]], H1=[[0.0, 0.0], [0.0, 0.0]],
+               d0=[[[0.0], [1.0]], [[-1.0], [0.0]]], d1=[[[0.0], [1.0]], [[-1.0], [0.0]]], v0=[0.5], v1=[0.5],
+               rho=[[1.0, 0.0], [0.0, 0.0]], kind="basis")
+
+
+@safe_oracle
+def oracle_rk4_witness(args):
+    """replay of the Lean counterexample `Mud.C02.rk4_purity_witness` on the implementation: ONE linear-rk4 step (dt = 1, one
+    sub-step) from |0><0| with a degenerate zero Hamiltonian and the constant coupling tau.v = [[0, 1/2], [-1/2, 0]].
+    The property asks for a pure state; the RK4 scheme gives tr rho^2 = 1145/1152"""
+    c = {k: (np.array(v) if isinstance(v, list) else v) for k, v in WITNESS.items()}
+    c["rho"] = np.array(c["rho"], dtype=np.complex128)
+    t = ec.make_traj(c, "linear-rk4", max_electronic_dt=float(args.get("max_edt", 1.0)), starting_electronic_intervals=1)
+    e0, e1 = ec.elecs(c)
+    t.propagate_electronics(e0, e1, 1.0)
+    rho = np.array(t.rho)
+    pur = float(np.real(np.trace(rho @ rho)))
+    herm = float(np.max(np.abs(rho - rho.conj().T)))
+    ok = abs(pur - 1.0) <= 1e-9
+    return ok, {"purity": pur, "trace": complex(np.trace(rho)), "hermiticity_error": herm, "rho": rho,
+                "equals_lean_witness": abs(pur - 1145.0 / 1152.0) <= 1e-12 and abs(np.trace(rho) - 1) <= 1e-12 and herm <= 1e-12}, \
+        {"purity": 1.0}, "after one linear-rk4 step from a pure state tr rho^2 = %.15g (Lean witness: 1145/1152 = %.15g)" % (pur, 1145.0 / 1152.0)
+
+
+ORACLES = {"rk4_witness": oracle_rk4_witness, "step": oracle_step, "run": oracle_run, "collapse": oracle_collapse}
 
 
 def run(ctx):
@@ -169,10 +215,17 @@ def run(ctx):
     ctx.proofs()
     rng = ctx.rng
     cases, lines, meta = [], [], []
-    for i in range(ctx.budget(120, 6000)):
+    nrandom = ctx.budget(120, 6000)
+    for i in range(nrandom + 1):
         c = ec.elec_case(rng)
         integ = ["exp", "linear-rk4"][i % 2]
-        t = ec.make_traj(c, integ)
+        topts = {}
+        if i == nrandom:
+            # the input of the Lean counterexample rk4_purity_witness: implementation and model driver on the same step
+            c = {k: (np.array(v) if isinstance(v, list) else v) for k, v in WITNESS.items()}
+            c["rho"] = np.array(c["rho"], dtype=np.complex128)
+            integ, topts = "linear-rk4", {"max_electronic_dt": 1.0, "starting_electronic_intervals": 1}
+        t = ec.make_traj(c, integ, **topts)
         e0, e1 = ec.elecs(c)
         W = t.hamiltonian_propagator(e0, e1)
         with ec.EighCapture() as cap:
@@ -209,9 +262,28 @@ def run(ctx):
         if o[0] != "ok" or not allclose(np.concatenate([got.real.ravel(), got.imag.ravel()]),
                                         np.concatenate([want.real.ravel(), want.imag.ravel()]), 1.0, rtol=1e-9):
             ctx.corr_mismatch(kind + "step", c, "rho' differs: model diag %r impl diag %r" % (np.diag(got), np.diag(want)))
+        if c.get("kind") == "basis" and c["dt"] == 1.0 and N == 2 and not np.any(c["H0"]):
+            pur = float(np.real(np.trace(got @ got)))
+            ctx.monitor("model_driver_purity_on_lean_witness_minus_1145/1152", abs(pur - 1145.0 / 1152.0))
+            if abs(pur - 1145.0 / 1152.0) > 1e-12:
+                ctx.corr_mismatch("rk4-witness", {}, "model driver gives tr rho^2 = %r on the witness input, Lean proves 1145/1152" % pur)
+            continue
         ok, obs, req, text = oracle_step({"case": c, "integ": integ})
         if not ok:
             ctx.oracle_fail("invalid-state-after-step:" + integ, "step", {"case": c, "integ": integ}, obs, req, text)
+
+    # the Lean counterexample to purity under linear-rk4, replayed on the implementation and on the model driver
+    ok, obs, req, text = oracle_rk4_witness({})
+    ctx.case(("rk4-witness",), {"op": "rk4-witness", "impl_purity": obs["purity"], "lean_purity": 1145.0 / 1152.0})
+    if not ok:
+        ctx.oracle_fail("rk4-not-unitary" if obs.get("equals_lean_witness") else "rk4-witness-other", "rk4_witness", {}, obs, req, text)
+    # corpus: inputs found by earlier thorough runs (seed 77) on which the RK4 defect is large
+    for spec in ({"cls": "TrajectorySH", "N": 2, "n": 1, "model_seed": 237721, "seed": 517071, "dt": 0.5, "steps": 150, "integ": "linear-rk4", "rho": "basis"},):
+        ok, obs, req, text = oracle_run(spec)
+        ctx.case(("run-corpus", spec["cls"]))
+        if not ok:
+            ctx.oracle_fail("rk4-not-unitary" if obs.get("only_rk4_truncation") else "invalid-state-in-run:%s:%s" % (spec["cls"], spec["integ"]),
+                            "run", spec, obs, req, text)
 
     classes = ["TrajectorySH", "TrajectoryCum", "Ehrenfest", "AugmentedFSSH", "EvenSamplingTrajectory"]
     for i in range(ctx.budget(12, 200)):
@@ -225,7 +297,12 @@ def run(ctx):
         if "hop_attempts" in obs:
             ctx.count("hop_attempts_in_runs", obs["hop_attempts"])
         if not ok:
-            ctx.oracle_fail("invalid-state-in-run:%s:%s" % (cls, spec["integ"]), "run", spec, obs, req, text)
+            # the listed finding is exactly: linear-rk4, Hermiticity and trace exact, and the positivity/purity defect vanishes
+            # when the electronic sub-step is refined (truncation error of the non-unitary RK4 scheme); anything else is not it
+            sig = "rk4-not-unitary" if obs.get("only_rk4_truncation") else "invalid-state-in-run:%s:%s" % (cls, spec["integ"])
+            ctx.oracle_fail(sig, "run", spec, obs, req, text)
+        if obs.get("defect") is not None and spec["integ"] == "linear-rk4":
+            ctx.monitor("max_rk4_positivity_purity_defect_in_runs", float(obs["defect"]))
     # Shin-Metiu (AdiabaticModel_) with the interpolating integrator
     for i in range(ctx.budget(1, 6)):
         spec = dict(cls="TrajectorySH", builtin="shin-metiu", x0=[-2.0 + 0.3 * i], p0=[15.0], model_seed=1, seed=3, dt=5.0,
